@@ -414,3 +414,377 @@ Proof.
   - intro H. rewrite H. reflexivity.
   - intros ex H1 H2. rewrite H1, H2. reflexivity.
 Qed.
+
+(* ------------------------------------------------------------------ Equal is a partial equivalence *)
+Ltac eqs := repeat match goal with
+  | H : _ && _ = true |- _ => apply andb_true_iff in H; destruct H
+  | H : N.eqb _ _ = true |- _ => apply N.eqb_eq in H
+  | H : Z.eqb _ _ = true |- _ => apply Z.eqb_eq in H
+  | H : bytes_eqb _ _ = true |- _ => apply bytes_eqb_spec in H
+  | H : ikind_eqb _ _ = true |- _ => apply ikind_eqb_spec in H
+  | H : fkind_eqb _ _ = true |- _ => apply fkind_eqb_spec in H
+  | H : Bool.eqb _ _ = true |- _ => apply eqb_prop in H
+  end; subst.
+
+Lemma float_eqb_sym : forall k a b, float_eqb k a b = float_eqb k b a.
+Proof.
+  intros. unfold float_eqb. rewrite (N.eqb_sym a b).
+  destruct (f_is_nan k a), (f_is_nan k b), (f_is_zero k a), (f_is_zero k b), (N.eqb b a); reflexivity.
+Qed.
+
+Lemma float_eqb_trans : forall k a b c, float_eqb k a b = true -> float_eqb k b c = true -> float_eqb k a c = true.
+Proof.
+  intros k a b c H1 H2. unfold float_eqb in *.
+  destruct (f_is_nan k a), (f_is_nan k b), (f_is_nan k c); simpl in *; try discriminate.
+  destruct (N.eqb_spec a b), (N.eqb_spec b c); subst; simpl in *.
+  - rewrite N.eqb_refl. reflexivity.
+  - rewrite H2. apply orb_true_r.
+  - rewrite H1. apply orb_true_r.
+  - apply andb_true_iff in H1. apply andb_true_iff in H2. destruct H1 as [Ha _]. destruct H2 as [_ Hc].
+    rewrite Ha, Hc. apply orb_true_r.
+Qed.
+
+Lemma ikind_eqb_refl : forall k, ikind_eqb k k = true.
+Proof. destruct k; reflexivity. Qed.
+Lemma fkind_eqb_refl : forall k, fkind_eqb k k = true.
+Proof. destruct k; reflexivity. Qed.
+
+Lemma deep_eqb_sym : forall a b, deep_eqb a b = deep_eqb b a.
+Proof.
+  destruct a as [|x|k x|k x|s x|x|x|x], b as [|y|k' y|k' y|s' y|y|y|y]; simpl; try reflexivity.
+  - destruct x, y; reflexivity.
+  - rewrite Z.eqb_sym. destruct k, k'; reflexivity.
+  - destruct k, k'; simpl; try reflexivity; apply float_eqb_sym.
+  - rewrite N.eqb_sym, Z.eqb_sym. reflexivity.
+  - apply bytes_eqb_sym.
+  - apply bytes_eqb_sym.
+  - apply Z.eqb_sym.
+Qed.
+
+Lemma deep_eqb_trans : forall a b c, deep_eqb a b = true -> deep_eqb b c = true -> deep_eqb a c = true.
+Proof.
+  intros a b c H1 H2.
+  destruct a, b; simpl in H1; try discriminate; destruct c; simpl in H2; try discriminate; simpl; eqs;
+    rewrite ?N.eqb_refl, ?Z.eqb_refl, ?bytes_eqb_refl, ?eqb_reflx, ?ikind_eqb_refl, ?fkind_eqb_refl; try reflexivity.
+  simpl. eapply float_eqb_trans; eassumption.
+Qed.
+
+Lemma table_eqb_sym : forall a b, table_eqb a b = table_eqb b a.
+Proof.
+  induction a as [|[k v] a IH]; destruct b as [|[k' v'] b]; simpl; try reflexivity.
+  rewrite IH, bytes_eqb_sym, deep_eqb_sym. reflexivity.
+Qed.
+
+Lemma table_eqb_trans : forall a b c, table_eqb a b = true -> table_eqb b c = true -> table_eqb a c = true.
+Proof.
+  induction a as [|[k v] a IH]; destruct b as [|[k' v'] b]; simpl; intros c H1 H2; try discriminate.
+  - assumption.
+  - destruct c as [|[k'' v''] c]; simpl in *; try discriminate.
+    apply andb_true_iff in H1. destruct H1 as [H1 H1c]. apply andb_true_iff in H1. destruct H1 as [H1a H1b].
+    apply andb_true_iff in H2. destruct H2 as [H2 H2c]. apply andb_true_iff in H2. destruct H2 as [H2a H2b].
+    apply bytes_eqb_spec in H1a. apply bytes_eqb_spec in H2a. subst.
+    rewrite bytes_eqb_refl, (deep_eqb_trans _ _ _ H1b H2b), (IH _ _ H1c H2c). reflexivity.
+Qed.
+
+Lemma binding_equal_sym : forall a b, binding_equal a b = binding_equal b a.
+Proof.
+  intros. unfold binding_equal.
+  rewrite (bytes_eqb_sym (b_exchange a)), (bytes_eqb_sym (b_queue a)), (bytes_eqb_sym (b_key a)).
+  f_equal. destruct (b_args a), (b_args b); simpl; try reflexivity. apply table_eqb_sym.
+Qed.
+
+Lemma binding_equal_trans : forall a b c,
+  binding_equal a b = true -> binding_equal b c = true -> binding_equal a c = true.
+Proof.
+  intros a b c H1 H2. unfold binding_equal in *.
+  apply andb_true_iff in H1; destruct H1 as [H1 A4]; apply andb_true_iff in H1; destruct H1 as [H1 A3];
+    apply andb_true_iff in H1; destruct H1 as [A1 A2].
+  apply andb_true_iff in H2; destruct H2 as [H2 B4]; apply andb_true_iff in H2; destruct H2 as [H2 B3];
+    apply andb_true_iff in H2; destruct H2 as [B1 B2].
+  apply bytes_eqb_spec in A1, A2, A3, B1, B2, B3.
+  rewrite A1, B1, A2, B2, A3, B3, !bytes_eqb_refl. simpl.
+  destruct (b_args a), (b_args b), (b_args c); simpl in *; try discriminate; try reflexivity.
+  eapply table_eqb_trans; eassumption.
+Qed.
+
+Lemma binding_equal_queue : forall a b, binding_equal a b = true -> b_queue a = b_queue b.
+Proof.
+  intros a b H. unfold binding_equal in H.
+  apply andb_true_iff in H; destruct H as [H _]; apply andb_true_iff in H; destruct H as [H _];
+    apply andb_true_iff in H; destruct H as [_ H].
+  apply bytes_eqb_spec. assumption.
+Qed.
+
+(* ------------------------------------------------------------------ binding list maintenance *)
+Notation beq := binding_equal.
+Definition held (bs : list binding) (b : binding) : bool := existsb (fun x => beq x b) bs.
+Notation nep := (no_equal_pair binding_equal).
+
+Lemma held_true : forall bs b, held bs b = true <-> exists x, In x bs /\ beq x b = true.
+Proof. intros. unfold held. apply existsb_exists. Qed.
+
+Lemma held_false : forall bs b, held bs b = false <-> forall x, In x bs -> beq x b = false.
+Proof.
+  intros. unfold held. split.
+  - intros H x Hx. destruct (beq x b) eqn:E; [|reflexivity].
+    assert (existsb (fun x => beq x b) bs = true) by (apply existsb_exists; exists x; auto). congruence.
+  - intro H. destruct (existsb (fun x => beq x b) bs) eqn:E; [|reflexivity].
+    apply existsb_exists in E. destruct E as [x [Hx Hb]]. rewrite (H x Hx) in Hb. discriminate.
+Qed.
+
+Lemma nep_app : forall bs nb, nep bs -> (forall x, In x bs -> beq x nb = false) -> nep (bs ++ [nb]).
+Proof.
+  induction bs as [|b t IH]; intros nb Hn Hx; simpl.
+  - split; [intros x []| exact I].
+  - destruct Hn as [Hb Ht]. split.
+    + intros x Hi. apply in_app_iff in Hi. destruct Hi as [Hi|[Hi|[]]].
+      * apply Hb. assumption.
+      * subst. apply Hx. left. reflexivity.
+    + apply IH; [assumption|]. intros; apply Hx; right; assumption.
+Qed.
+
+Lemma nep_sub : forall (f : list binding -> list binding),
+  (forall bs x, In x (f bs) -> In x bs) ->
+  (forall b t, f (b :: t) = b :: f t \/ f (b :: t) = f t \/ f (b :: t) = t) ->
+  forall bs, nep bs -> nep (f bs).
+Proof.
+  intros f Hin Hstep. induction bs as [|b t IH]; intro Hn.
+  - destruct (f []) as [|x l] eqn:E; [exact I|]. exfalso. apply (Hin [] x). rewrite E. left. reflexivity.
+  - destruct Hn as [Hb Ht]. destruct (Hstep b t) as [E|[E|E]]; rewrite E.
+    + split; [|apply IH; assumption]. intros x Hx. apply Hb. apply Hin. assumption.
+    + apply IH. assumption.
+    + assumption.
+Qed.
+
+Lemma remove_binding_In : forall bs rm x, In x (remove_binding bs rm) -> In x bs.
+Proof.
+  induction bs as [|b t IH]; intros rm x H; simpl in *; [assumption|].
+  destruct (beq b rm); [right; assumption|]. destruct H as [H|H]; [left; assumption | right; eapply IH; eassumption].
+Qed.
+
+Lemma nep_remove : forall bs rm, nep bs -> nep (remove_binding bs rm).
+Proof.
+  induction bs as [|b t IH]; intros rm Hn; simpl; [exact I|].
+  destruct Hn as [Hb Ht]. destruct (beq b rm); [assumption|].
+  split; [|apply IH; assumption]. intros x Hx. apply Hb. eapply remove_binding_In. eassumption.
+Qed.
+
+Lemma nep_filter : forall p bs, nep bs -> nep (filter p bs).
+Proof.
+  induction bs as [|b t IH]; intro Hn; simpl; [exact I|].
+  destruct Hn as [Hb Ht]. destruct (p b); [|apply IH; assumption].
+  split; [|apply IH; assumption]. intros x Hx. apply Hb. apply filter_In in Hx. tauto.
+Qed.
+
+Lemma held_append : forall bs nb b,
+  held (append_binding bs nb) b = if beq nb b then true else held bs b.
+Proof.
+  intros bs nb b. unfold append_binding. fold (held bs nb). destruct (held bs nb) eqn:E.
+  - destruct (beq nb b) eqn:Eb; [|reflexivity].
+    apply held_true in E. destruct E as [x [Hx Hxn]]. apply held_true. exists x. split; [assumption|].
+    eapply binding_equal_trans; eassumption.
+  - unfold held. rewrite existsb_app. simpl. rewrite orb_false_r.
+    destruct (beq nb b); [apply orb_true_r | apply orb_false_r].
+Qed.
+
+Lemma held_remove : forall bs rm b, nep bs ->
+  held (remove_binding bs rm) b = if beq rm b then false else held bs b.
+Proof.
+  induction bs as [|b0 t IH]; intros rm b Hn; simpl.
+  - destruct (beq rm b); reflexivity.
+  - destruct Hn as [Hb Ht]. destruct (beq b0 rm) eqn:E0.
+    + destruct (beq rm b) eqn:Er.
+      * apply held_false. intros y Hy. destruct (beq y b) eqn:Ey; [|reflexivity]. exfalso.
+        assert (beq y rm = true) as Hyr by (eapply binding_equal_trans; [eassumption | rewrite binding_equal_sym; assumption]).
+        assert (beq y b0 = true) as Hy0 by (eapply binding_equal_trans; [eassumption | rewrite binding_equal_sym; assumption]).
+        rewrite binding_equal_sym in Hy0. rewrite (Hb y Hy) in Hy0. discriminate.
+      * destruct (beq b0 b) eqn:E0b; [|reflexivity]. exfalso.
+        assert (beq rm b = true); [|congruence].
+        eapply binding_equal_trans; [rewrite binding_equal_sym; eassumption | assumption].
+    + simpl. fold (held (remove_binding t rm) b). rewrite IH by assumption.
+      destruct (beq rm b) eqn:Er; [|reflexivity].
+      rewrite orb_false_r. destruct (beq b0 b) eqn:E0b; [|reflexivity]. exfalso.
+      assert (beq b0 rm = true); [|congruence].
+      eapply binding_equal_trans; [eassumption | rewrite binding_equal_sym; assumption].
+Qed.
+
+Lemma held_remove_queue : forall bs q b,
+  held (remove_queue_bindings bs q) b = if bytes_eqb (b_queue b) q then false else held bs b.
+Proof.
+  induction bs as [|b0 t IH]; intros q b; simpl.
+  - destruct (bytes_eqb (b_queue b) q); reflexivity.
+  - destruct (bytes_eqb (b_queue b0) q) eqn:E0; simpl.
+    + rewrite IH. destruct (bytes_eqb (b_queue b) q) eqn:Eb; [reflexivity|].
+      destruct (beq b0 b) eqn:E; [|reflexivity]. apply binding_equal_queue in E.
+      rewrite E in E0. congruence.
+    + fold (held (remove_queue_bindings t q) b). rewrite IH.
+      destruct (bytes_eqb (b_queue b) q) eqn:Eb; [|reflexivity].
+      rewrite orb_false_r. destruct (beq b0 b) eqn:E; [|reflexivity]. apply binding_equal_queue in E.
+      rewrite E in E0. congruence.
+Qed.
+
+Theorem binding_maintenance : forall ops,
+  no_equal_pair binding_equal (bl_run ops) /\
+  forall b, held (bl_run ops) b = bound_after binding_equal (rev ops) b.
+Proof.
+  induction ops as [|op ops IH] using rev_ind.
+  - split; [exact I | reflexivity].
+  - destruct IH as [Hn Hh]. unfold bl_run in *. rewrite fold_left_app. simpl fold_left.
+    rewrite rev_app_distr. simpl rev. simpl app. set (bs := fold_left bl_step ops []) in *.
+    destruct op as [nb|rm|q]; simpl bl_step; simpl bound_after.
+    + split.
+      * unfold append_binding. fold (held bs nb). destruct (held bs nb) eqn:E; [assumption|].
+        apply nep_app; [assumption|]. apply held_false. assumption.
+      * intro b. rewrite held_append, Hh. reflexivity.
+    + split; [apply nep_remove; assumption|]. intro b. rewrite held_remove by assumption. rewrite Hh. reflexivity.
+    + split; [apply nep_filter; assumption|]. intro b. rewrite held_remove_queue, Hh. reflexivity.
+Qed.
+
+(* ------------------------------------------------------------------ the default exchange *)
+Definition default_binding (q : name) : binding :=
+  {| b_queue := q; b_exchange := []; b_key := q; b_args := Some []; b_topic := false; b_match := MatchAll |}.
+
+(* the only way to damage the default bindings: an unbind that names the default exchange *)
+Definition op_ok (c : route_cfg) (op : topo_op) : Prop :=
+  match op with
+  | TUnbind _ exn _ _ => c_unbind_refuses_default c = true \/ exn <> []
+  | _ => True
+  end.
+
+Lemma new_default_binding : forall c q, sane c ->
+  new_binding c q [] q (Some []) false = Some (default_binding q).
+Proof. intros c q S. unfold new_binding. simpl. rewrite (s_def c S). reflexivity. Qed.
+
+Lemma find_exchange_name : forall exs n e, find_exchange exs n = Some e -> ex_name e = n.
+Proof.
+  induction exs as [|x t IH]; intros n e H; simpl in H; [discriminate|].
+  destruct (bytes_eqb (ex_name x) n) eqn:E; [inversion H; subst; apply bytes_eqb_spec; assumption | eapply IH; eassumption].
+Qed.
+
+Lemma find_update_same : forall exs n f e, find_exchange exs n = Some e ->
+  find_exchange (update_exchange exs n f) n =
+  Some {| ex_name := ex_name e; ex_type := ex_type e; ex_bindings := f (ex_bindings e) |}.
+Proof.
+  induction exs as [|x t IH]; intros n f e H; simpl in *; [discriminate|].
+  destruct (bytes_eqb (ex_name x) n) eqn:E; simpl.
+  - rewrite E. inversion H; subst. reflexivity.
+  - rewrite E. apply IH. assumption.
+Qed.
+
+Lemma find_update_other : forall exs n n' f, n <> n' ->
+  find_exchange (update_exchange exs n f) n' = find_exchange exs n'.
+Proof.
+  induction exs as [|x t IH]; intros n n' f D; simpl; [reflexivity|].
+  destruct (bytes_eqb (ex_name x) n) eqn:E; simpl.
+  - apply bytes_eqb_spec in E. rewrite E.
+    destruct (bytes_eqb n n') eqn:E'; [apply bytes_eqb_spec in E'; contradiction | reflexivity].
+  - destruct (bytes_eqb (ex_name x) n'); [reflexivity | apply IH; assumption].
+Qed.
+
+Lemma find_app : forall exs l n e, find_exchange exs n = Some e -> find_exchange (exs ++ l) n = Some e.
+Proof.
+  induction exs as [|x t IH]; intros l n e H; simpl in *; [discriminate|].
+  destruct (bytes_eqb (ex_name x) n); [assumption | apply IH; assumption].
+Qed.
+
+Lemma find_map : forall (g : exchange -> exchange) exs n, (forall e, ex_name (g e) = ex_name e) ->
+  find_exchange (map g exs) n = option_map g (find_exchange exs n).
+Proof.
+  intros g exs n Hg. induction exs as [|x t IH]; simpl; [reflexivity|].
+  rewrite Hg. destruct (bytes_eqb (ex_name x) n); [reflexivity | assumption].
+Qed.
+
+Lemma queue_declared_In : forall t q, queue_declared t q = true <-> In q (t_queues t).
+Proof. intros. unfold queue_declared. apply existsb_bytes_In. Qed.
+
+Definition default_inv (c : route_cfg) (t : topo) : Prop :=
+  exists e, find_exchange (t_exchanges t) [] = Some e /\ ex_type e = c_direct c /\
+            forall b, In b (ex_bindings e) <-> exists q, In q (t_queues t) /\ b = default_binding q.
+
+Lemma default_inv_step : forall c t op, sane c ->
+  c_bind_refuses_default c = true -> c_default_binding_on_declare c = true ->
+  op_ok c op -> default_inv c t -> default_inv c (topo_step c t op).
+Proof.
+  intros c t op S Hb Hd Hok [e [Hf [Ht Hbs]]].
+  destruct op as [n ty|q|q exn key args|q exn key args|q]; simpl; unfold default_exchange_name in *.
+  - (* declare exchange *)
+    destruct (find_exchange (t_exchanges t) n) eqn:En.
+    + exists e. auto.
+    + exists e. simpl. split; [apply find_app; assumption | auto].
+  - (* declare queue *)
+    destruct (queue_declared t q) eqn:Eq.
+    + exists e. auto.
+    + rewrite Hd. rewrite (s_def c S). fold (default_binding q). unfold default_inv. simpl.
+      rewrite (find_update_same _ _ _ e Hf). eexists. split; [reflexivity|]. simpl. split; [assumption|].
+      assert (~ In q (t_queues t)) as Nq by (intro I; apply queue_declared_In in I; congruence).
+      intro b. unfold append_binding. fold (held (ex_bindings e) (default_binding q)).
+      destruct (held (ex_bindings e) (default_binding q)) eqn:Eh.
+      * exfalso. apply held_true in Eh. destruct Eh as [x [Hx Hxe]]. apply Hbs in Hx.
+        destruct Hx as [q' [Hq' Ex]]. subst x. apply binding_equal_queue in Hxe. simpl in Hxe. subst. contradiction.
+      * rewrite in_app_iff, Hbs. simpl. split.
+        -- intros [[q' [Hq' Ex]]|[Ex|[]]].
+           ++ exists q'. split; [apply in_app_iff; left; assumption | assumption].
+           ++ exists q. split; [apply in_app_iff; right; left; reflexivity | symmetry; assumption].
+        -- intros [q' [Hq' Ex]]. apply in_app_iff in Hq'. destruct Hq' as [Hq'|[Hq'|[]]].
+           ++ left. exists q'. auto.
+           ++ right. left. subst. reflexivity.
+  - (* bind *)
+    destruct (find_exchange (t_exchanges t) exn) as [e'|] eqn:En; [|exists e; auto].
+    rewrite Hb. cbn [andb]. destruct (bytes_eqb (ex_name e') []) eqn:Ed; [exists e; auto|].
+    destruct (negb (queue_declared t q)); [exists e; auto|].
+    destruct (new_binding c q exn key args (N.eqb (ex_type e') (c_topic c))); [|exists e; auto].
+    exists e. simpl. split; [|auto].
+    rewrite find_update_other; [assumption|].
+    apply find_exchange_name in En. apply bytes_eqb_false in Ed. congruence.
+  - (* unbind *)
+    destruct (find_exchange (t_exchanges t) exn) as [e'|] eqn:En; [|exists e; auto].
+    simpl in Hok. pose proof (find_exchange_name _ _ _ En) as Hn.
+    destruct (c_unbind_refuses_default c && bytes_eqb (ex_name e') []) eqn:Er; [exists e; auto|].
+    destruct (negb (queue_declared t q)); [exists e; auto|].
+    destruct (new_binding c q exn key args (N.eqb (ex_type e') (c_topic c))); [|exists e; auto].
+    exists e. simpl. split; [|auto].
+    rewrite find_update_other; [assumption|].
+    destruct Hok as [Hr|Hne]; [|assumption].
+    rewrite Hr in Er. simpl in Er. apply bytes_eqb_false in Er. congruence.
+  - (* delete queue *)
+    destruct (negb (queue_declared t q)); [exists e; auto|]. unfold default_inv. cbn [t_exchanges t_queues].
+    rewrite find_map by reflexivity. rewrite Hf. simpl. eexists. split; [reflexivity|]. simpl. split; [assumption|].
+    intro b. unfold remove_queue_bindings. rewrite filter_In, Hbs. split.
+    + intros [[q' [Hq' Ex]] Hn]. exists q'. split; [|assumption]. apply filter_In. split; [assumption|].
+      subst b. simpl in Hn. assumption.
+    + intros [q' [Hq' Ex]]. apply filter_In in Hq'. destruct Hq' as [Hq' Hn]. split; [exists q'; auto|].
+      subst b. simpl. assumption.
+Qed.
+
+Lemma default_inv_run : forall c ops t, sane c ->
+  c_bind_refuses_default c = true -> c_default_binding_on_declare c = true ->
+  Forall (op_ok c) ops -> default_inv c t -> default_inv c (topo_run c t ops).
+Proof.
+  intros c ops. induction ops as [|op ops IH]; intros t S Hb Hd Hok Hi; [assumption|].
+  unfold topo_run. simpl. inversion Hok; subst. apply IH; try assumption.
+  apply default_inv_step; assumption.
+Qed.
+
+Theorem default_exchange_routes_by_name : forall c ops, cfg_sane c = true ->
+  c_bind_refuses_default c = true -> c_default_binding_on_declare c = true ->
+  Forall (op_ok c) ops ->
+  let t := topo_run c (topo_init c) ops in
+  exists e, find_exchange (t_exchanges t) [] = Some e /\
+    forall m, m_exchange m = [] ->
+      exists l, matched_queues c e m = Some l /\ forall q, In q l <-> default_route_spec (t_queues t) m q.
+Proof.
+  intros c ops Hc Hb Hd Hok t. pose proof (cfg_sane_sane c Hc) as S.
+  assert (default_inv c t) as [e [Hf [Ht Hbs]]].
+  { apply default_inv_run; try assumption.
+    eexists. split; [reflexivity|]. simpl. split; [reflexivity|]. intro b. split; [intros [] | intros [q [[] _]]]. }
+  exists e. split; [assumption|]. intros m Hm.
+  unfold matched_queues. rewrite Ht, N.eqb_refl, (s_ed c S).
+  destruct (mq_loop_spec (fun b => Some (match_direct b (m_exchange m) (m_key m)))
+              (fun b => match_direct b (m_exchange m) (m_key m)) (ex_bindings e) (fun _ _ => eq_refl) [])
+    as [l [Hl Hq]].
+  exists l. split; [assumption|]. intro q. rewrite Hq. unfold default_route_spec. split.
+  - intros [[]|[b [Hi [Hmd Hqb]]]]. apply Hbs in Hi. destruct Hi as [q' [Hq' Eb]]. subst b.
+    apply match_direct_spec in Hmd. simpl in *. destruct Hmd as [_ Hk]. subst. auto.
+  - intros [Hi Hk]. right. exists (default_binding q). split; [apply Hbs; exists q; auto|].
+    split; [|reflexivity]. apply match_direct_spec. simpl. rewrite Hm. auto.
+Qed.
